@@ -12,7 +12,7 @@ ID = "C06"
 RULE = (
     "case = (2-10 glyphs with roles base / mark / mark-with-base-anchors / ligature (2, 3 or 11 components) over Latin, Cyrillic, Arabic, Devanagari, Bengali, "
     "Khmer code points and unencoded glyphs; anchors from a small key pool with fractional/negative/x.5 coordinates, several classes per mark, gaps in "
-    "ligature numbering; GDEF via complete / partial public.openTypeCategories or none; languagesystem statements; quantization 1/5/10; groupMarkClasses); "
+    "ligature numbering; without categories a ligature glyph may also carry a plain anchor of another key (attached like a base anchor); GDEF via complete / partial public.openTypeCategories or none; languagesystem statements; quantization 1/5/10; groupMarkClasses); "
     "oracle = own GPOS interpreter (MarkBase/MarkLig/MarkMark, lookup flags, filtering sets) evaluated for every ordered (glyph, mark) pair and ligature "
     "component under every script tag against candidate offsets q(base anchor) - q(mark anchor) computed from the source: none when no key matches, the "
     "unique candidate, or one of several; attachment kind must follow the glyph's role. Non-trivial = a mark with two classes, a ligature, or an "
@@ -85,6 +85,15 @@ def mark_font(draw):
                 spec["base_with_mark_anchor"] = g["name"]
     elif cat == "partial":
         spec["lib"]["public.openTypeCategories"] = {n: r for n, r in roles.items() if draw(st.sampled_from([True, True, True, False]))}
+    elif draw(st.integers(0, 2)) == 0:
+        # no categories: a ligature glyph may carry, beside its numbered anchors, a plain anchor of ANOTHER key (attached by mark-to-base)
+        for g in spec["glyphs"]:
+            if roles[g["name"]] == "ligature":
+                used = {re.sub(r"_\d+$", "", a["name"]) for a in g["anchors"]}
+                free = [k for k in KEYS[:3] if k not in used]
+                if free:
+                    g["anchors"].append({"name": free[0], "x": draw(coord), "y": draw(coord)})
+                    spec["lig_with_plain_anchor"] = True
     fea = ""
     if draw(st.booleans()):
         tags = draw(st.lists(st.sampled_from(["latn", "arab", "dev2", "deva", "cyrl", "bng2", "khmr"]), unique=True, max_size=3))
@@ -221,6 +230,7 @@ def run_case(case, ctx):
     npairs = natt = nweak = nkf = nkf2 = 0
     two_class = any(sum(1 for k in A[n] if k.startswith("_") and k[1:] in base_keys_plain) >= 2 for n in names if is_mark(n))
     mkmk_cand = False
+    nplain = 0
     for tag in sorted(tags):
         for g1, g2 in itertools.product(names, names):
             if not is_mark(g2):
@@ -239,6 +249,12 @@ def run_case(case, ctx):
                     bk = k[1:] if not as_lig else "%s_%d" % (k[1:], comp)
                     if bk in A[g1] and k[1:] in mark_keys:
                         cands.add((A[g1][bk][0] - mx, A[g1][bk][1] - my))
+                plain = set()
+                if as_lig:
+                    # a plain (un-numbered) anchor of a ligature glyph attaches like a base anchor, whatever the component
+                    for k, (mx, my) in A[g2].items():
+                        if k.startswith("_") and k[1:] in A[g1] and k[1:] in mark_keys:
+                            plain.add((A[g1][k[1:]][0] - mx, A[g1][k[1:]][1] - my))
                 got = otl.eval_attach(t, g1, g2, tag, comp=comp if as_lig else None)
                 npairs += 1
                 weak = False
@@ -260,9 +276,20 @@ def run_case(case, ctx):
                     weak = True  # known finding KF-C06-2
                 if weak:
                     nweak += 1
-                    if got is not None and got[1] not in cands:
+                    if got is not None and got[1] not in (cands | plain):
                         raise Violation("attachment offset is not one of the source-defined candidates", tag=tag, pair=[g1, g2], component=comp, got=got, candidates=sorted(cands))
                     continue
+                if plain and not cats:
+                    nplain += 1
+                    if got is None:
+                        raise Violation("no attachment generated for the plain anchor of a glyph that also has numbered ligature anchors", tag=tag, pair=[g1, g2], component=comp, candidates=sorted(plain | cands))
+                    if got[1] not in (plain | cands):
+                        raise Violation("attachment offset differs from base anchor minus mark anchor", tag=tag, pair=[g1, g2], component=comp, got=got, candidates=sorted(plain | cands), quant=quant)
+                    if not cands and got[0] != "base":
+                        raise Violation("attachment comes from the wrong lookup type", tag=tag, pair=[g1, g2], got=got, expected_kind="base")
+                    continue
+                if plain:
+                    continue  # categorised fonts: which of the two forms wins is the writer's choice, not compared
                 if not cands:
                     if got is not None:
                         raise Violation("attachment generated for a pair without a matching anchor name", tag=tag, pair=[g1, g2], component=comp, got=got)
@@ -276,6 +303,9 @@ def run_case(case, ctx):
                     if got[0] != eff:
                         raise Violation("attachment comes from the wrong lookup type", tag=tag, pair=[g1, g2], got=got, expected_kind=eff)
     ctx.count("pairs", npairs)
+    if nplain:
+        ctx.count("ligature-plain-anchor-pairs", nplain)
+        ctx.label("ligature-glyph-with-a-plain-anchor")
     ctx.count("attachments-checked", natt)
     ctx.count("weak-pairs", nweak)
     ctx.count("pairs-in-known-finding-class(KF-C06-1)", nkf)
